@@ -298,6 +298,24 @@ def step_mode(rep, prop, owners, tier, seed):
                      "StationOccupiedError outcomes included) replayed" % len(jobs))
 
 
+def fractional_pilots(rep, prop, owners, tier, seed):
+    """Behaviours whose schedules hold non-integral pilots (units of 1/2 A; rows mixing ints and floats),
+    replayed on continuous / deadband EVSEs."""
+    n = 400 if tier == "quick" else 8000
+    bhvs, stats = gen_behaviours("AcnSim_gen_frac", {}, n, 160, seed + 29, procs=2 if tier == "quick" else 8)
+    for s in stats:
+        rep.add_tlc(s, "behaviour generation with non-integral pilots (PU = 2; PilotUnitsExact, RateBounds, Ledger checked "
+                       "on every sampled state)", "AcnSim_gen_frac")
+    jobs = []
+    for i, b in enumerate(bhvs):
+        r = random.Random(seed * 613 + i)
+        kw = _kw_cycle(i, seed, evse_kinds=[r.choice(["cont", "deadband"]) for _ in range(3)])
+        jobs.append((b, kw, seed * 100003 + i))
+    for (b, kw, _), d in zip(jobs, run_pool(_work_spec, jobs, 8)):
+        judge(rep, prop, b, kw, d, owners)
+    rep.notes.append("%d behaviours with non-integral pilots replayed" % len(jobs))
+
+
 def check_C01(tier, seed):
     rep = check_spec_replay("C01", tier, seed, {"C01"}, {"MaxCrash": "= 0", "Menu": "<- MenuBasic"}, 1500, 40000)
     step_mode(rep, "C01", {"C01"}, tier, seed)
@@ -307,6 +325,7 @@ def check_C01(tier, seed):
 def check_C02(tier, seed):
     rep = check_spec_replay("C02", tier, seed, {"C02", "C03"}, {"MaxCrash": "= 0", "Menu": "<- MenuBasic"}, 1500, 40000)
     step_mode(rep, "C02", {"C02", "C03"}, tier, seed)
+    fractional_pilots(rep, "C02", {"C02", "C03"}, tier, seed)
     return rep.finish()
 
 
@@ -314,6 +333,7 @@ def check_C04(tier, seed):
     rep = check_spec_replay("C04", tier, seed, {"C04"}, {"MaxCrash": "= 1", "Menu": "<- MenuC04", "AllowDump": "= FALSE"},
                             1500, 40000)
     step_mode(rep, "C04", {"C04"}, tier, seed)
+    fractional_pilots(rep, "C04", {"C04"}, tier, seed)
     return rep.finish()
 
 
